@@ -786,7 +786,14 @@ def c07_r3(ctx: Ctx, rule):
             for kw in e.keywords:
                 if kw.arg == "datatype":
                     tv = kw.value
-                    if isinstance(tv, ast.Subscript) and isinstance(tv.slice, ast.Call) and call_name(tv.slice) == "type":
+                    sl = tv.slice if isinstance(tv, ast.Subscript) else None
+                    if isinstance(sl, ast.Name):
+                        # value_type = type(value) ... TABLE[value_type]
+                        from ..mutation import all_assignments
+                        ds = [d for d in all_assignments(fi.node, sl.id) if d is not None]
+                        if len(ds) == 1 and isinstance(ds[0], ast.Call) and call_name(ds[0]) == "type":
+                            sl = ds[0]
+                    if isinstance(tv, ast.Subscript) and isinstance(sl, ast.Call) and call_name(sl) == "type":
                         tab = ctx.eval_in(q, tv.value)
                         for key, val in (tab.items() if isinstance(tab, dict) else []):
                             if kind_of_value(key) == k:
